@@ -101,10 +101,12 @@ func cmdCheck(args []string) {
 	for rx, why := range pf.Allow {
 		pf.Assume = append(pf.Assume, "allowed ("+rx+"): "+why)
 	}
+	assumedCount := 0
 	report := func(name string, payload map[string]interface{}, confirmed bool) {
 		for rx, why := range pf.Allow {
 			if ok, _ := regexp.MatchString(rx, name); ok {
 				fmt.Printf("ASSUMED: property=%s %s (%s)\n", id, name, why)
+				assumedCount++
 				return
 			}
 		}
@@ -261,6 +263,11 @@ func cmdCheck(args []string) {
 	extraEv := map[string]interface{}{}
 	for _, x := range pf.Extra {
 		runExtra(ctx, x, id, extraEv, report, known)
+	}
+	// allowed (assumed) items are neither obligations nor discharged: they are listed under the assumptions
+	if assumedCount > 0 {
+		extraEv["extra_obligations"] = intOf(extraEv["extra_obligations"]) - assumedCount
+		extraEv["assumed_items"] = assumedCount
 	}
 	if nSel+intOf(extraEv["extra_obligations"]) < pf.Floor {
 		report("floor", map[string]interface{}{"what": fmt.Sprintf("only %d obligations generated, floor is %d: contracts or functions disappeared", nSel, pf.Floor)}, false)
